@@ -300,12 +300,12 @@ class RBFEvaluator(FuncEvaluator, XCEvalSerializable):
         if isinstance(kernel, SubsetRBF):
             if isinstance(kernel.indexes, slice):
                 i = kernel.indexes
-                start = i.start
+                start = i.start if i.start is not None else 0
                 step = i.step if i.step is not None else 1
                 stop = (
                     i.stop
                     if i.stop is not None
-                    else (len(kernel.length_scale) + i.start) // step
+                    else start + len(kernel.length_scale) * step
                 )
                 indexes = [i for i in range(start, stop, step)]
             indexes = np.array(indexes, dtype=np.int32)
